@@ -80,6 +80,27 @@ def declared_names(text):
     return names
 
 
+def move_selects(xml, rng):
+    """Edges whose other labels do not mention the select binders: the select label is written after them (the format
+    allows labels in any order; editors write select first)."""
+    def tr(m):
+        body = m.group(0)
+        sm = re.search(r'<label kind="select"[^>]*>(.*?)</label>', body, re.S)
+        if not sm or rng.random() < 0.5:
+            return body
+        binders = re.findall(r"(\w+)\s*:", sm.group(1))
+        rest = body[:sm.start()] + body[sm.end():]
+        texts = " ".join(re.findall(r"<label [^>]*>(.*?)</label>", rest, re.S))
+        if any(re.search(r"\b%s\b" % re.escape(b), texts) for b in binders):
+            return body
+        k = rest.rfind("</label>")
+        if k < 0:
+            return body
+        k += len("</label>")
+        return rest[:k] + sm.group(0) + rest[k:]
+    return re.sub(r"<transition\b.*?</transition>", tr, xml, flags=re.S)
+
+
 def run(rep, tier, seed):
     rep.level = "fault_enumeration"
     rng = random.Random(seed * 1000003 + 16)
@@ -90,6 +111,8 @@ def run(rep, tier, seed):
     while len(items) < n:
         m = mg.model()
         xml = GM.render_xml(m, rng)
+        if rng.random() < 0.5:
+            xml = move_selects(xml, rng)
         bl = blocks_of(xml)
         locs = locators(xml)
         base_case = Case("b%d" % len(items), [Step("parse_builder", 0, "xml_buffer", 1, "doc", 1, xml)], timeout=60)
